@@ -11,9 +11,13 @@ THEOREMS = {
     "C07": ("TrVerif.Props.C07Data", ["Tr.C07_route_strings", "Tr.C07_accessibility_strings", "Tr.C07_enum_order", "Tr.C07_access",
                                       "Tr.C07_route_no_service_from_origin", "Tr.C07_no_service_from_origin_data", "Tr.C07_no_service_from_origin",
                                       "Tr.C07_no_service_at_place_forward", "Tr.fwdScan_count_zero", "Tr.fwdIndex_spec", "Tr.before_start_early"]),
-    # module NonVacuity imports C08 (and C02, C09): a concrete dataset meeting the hypotheses of C01/C02/C06/C08/C09 on which all four calculations succeed
-    "C08": ("TrVerif.Props.NonVacuity", ["Tr.C08_sound", "Tr.forwardNode_sound", "Tr.fwdScanList_inv", "Tr.fwdStep_inv", "Tr.init_FInv", "Tr.nv_hypotheses", "Tr.nv_results"]),
-    "C09": ("TrVerif.Props.C09", ["Tr.C09_sound", "Tr.reverseNode_sound", "Tr.collectNodes_sorted", "Tr.collectNodes_mem"]),
+    # module NonVacuity imports C08Complete and C09Complete (hence C02, C07Data, C08, C09, C18): a concrete dataset meeting every hypothesis, on which all four calculations succeed
+    "C08": ("TrVerif.Props.NonVacuity", ["Tr.C08_sound", "Tr.C08_complete", "Tr.C08_earliest", "Tr.forwardNode_sound", "Tr.fwdScanList_inv", "Tr.fwdStep_inv", "Tr.init_FInv",
+                                         "Tr.fwdScanList_FC", "Tr.fwdStep_FC", "Tr.init_FC", "Tr.FW_dataset", "Tr.fwdIndex_spec",
+                                         "Tr.nv_hypotheses", "Tr.nv_hypotheses_complete", "Tr.nv_results"]),
+    "C09": ("TrVerif.Props.NonVacuity", ["Tr.C09_sound", "Tr.C09_complete", "Tr.C09_latest", "Tr.reverseNode_sound", "Tr.collectNodes_sorted", "Tr.collectNodes_mem",
+                                         "Tr.revScanList_RC", "Tr.revStep_RC", "Tr.init_RC", "Tr.RW_dataset", "Tr.revIndex_spec",
+                                         "Tr.nv_hypotheses", "Tr.nv_hypotheses_reverse", "Tr.nv_results"]),
     "C10": ("TrVerif.Props.C10", ["Tr.C10_alternatives"]),
     "C11": ("TrVerif.Props.C11", ["Tr.C11_connSet", "Tr.C11_restrict", "Tr.C11_answers", "Tr.C11_route"]),
     "C13": ("TrVerif.Props.C13", ["Tr.C13_history_independent", "Tr.C13_cache_kind_irrelevant", "Tr.C13_structure"]),
@@ -65,18 +69,6 @@ for _pid, _what in (("C03", "earliest arrival (reference forward solver over all
          "(proved). " + _M + " in full; " + _what + " is recomputed for every generated case by an independent brute-force reference and compared with the implementation's answer. "
          "This is testing of the property on generated inputs, not a proof.",
          "differential correspondence with the Lean model + reference solver on generated inputs (no theorem)")
-_reg("C08", "PROOF (partial: soundness half): Tr.C08_sound - every stop a departure-time accessibility answer lists is reachable with the reported time: a traveller leaving the place at the "
-     "requested time can stand (inductive Reach: access walk, or earlier rides each followed by one footpath within the transfer maximum) at the boarding stop of a permitted boarding no later "
-     "than its departure minus the minimum waiting time, on a trip that is not excluded and that alights (permitted) at the listed stop at nodeTime; totalTravelTime = nodeTime - requested "
-     "time <= max_travel_time; each stop once, ascending; totalNodeCount = number of stops. Proved by a soundness invariant of the forward scan (Tr.fwdStep_inv). NOT proved: that every "
-     "reachable stop is listed and that nodeTime is the EARLIEST such time (completeness of the forward scan); that half is decided per answer by the brute-force reference solver. " + _M + ".",
-     "Lean 4 theorem (soundness via a forward-scan invariant) + differential correspondence + reference solver for completeness")
-_reg("C09", "PROOF (partial: soundness half): Tr.C09_sound - every stop an arrival-time accessibility answer lists is usable with the reported time: a chain of scheduled rides (boarding / "
-     "alighting permitted, changes by one footpath within the transfer maximum after the minimum waiting time) boards at that stop at nodeTime + minimum waiting and alights at a stop the "
-     "router offers, early enough to reach the place by the requested time; totalTravelTime = requested time - nodeTime <= max_travel_time; each stop once, ascending; totalNodeCount = "
-     "number of stops. NOT proved: that every usable stop is listed and that nodeTime is the LATEST such time (completeness of the reverse scan); that half is decided per answer by the "
-     "brute-force reference solver. " + _M + ".",
-     "Lean 4 theorem (soundness via the reverse-scan invariant) + differential correspondence + reference solver for completeness")
 _reg("C06", "PROOF (full, over the model): Tr.C06_totals - the clock chain and every total/identity of the property hold for every journey value the emission pass "
      "can produce; Tr.C06_route lifts it to every route returned on a well-formed dataset. " + _M + "; " + _O + ".",
      "Lean 4 theorem over the emission model + differential correspondence")
@@ -88,6 +80,20 @@ _reg("C07", "PROOF (partial): Tr.C07_access - the NO_ACCESS_* trichotomy is retu
      "position leaves before the requested hour). Both reason-to-string switches and the enum order are regenerated from the source. NOT proved: the NO_SERVICE_TO_DESTINATION side (reverse "
      "scan count) and that NO_ROUTING_FOUND is returned only when neither applies AND no journey exists (needs completeness); these are evaluated per answer by the oracle reason_spec. " + _M + ".",
      "Lean 4 theorems (access trichotomy; NO_SERVICE_FROM_ORIGIN iff by the data incl. hour-index transparency) + regenerated tables + differential correspondence + executable oracle")
+_reg("C08", "PROOF (full, over the model, on the property's own domain): Tr.C08_sound - every listed stop is reachable with the reported time (inductive specification Reach: access walk, or a ride "
+     "of one admitted trip with permitted boarding after the minimum waiting time and permitted alighting followed by one footpath within the transfer maximum); Tr.C08_complete - every stop "
+     "where such a traveller can alight within max_travel_time is listed; Tr.C08_earliest - the listed nodeTime is no later than ANY such alighting at that stop; totalTravelTime = nodeTime - "
+     "requested time, each stop once ascending, totalNodeCount = number of stops. Hypotheses = the property's domain: well-formed data, positive hop times, every stop transferable to itself in "
+     "0 s, non-negative walks, first-waiting cap disabled, clock values in [0, 32 h), router lists each stop once (all satisfiable: Tr.nv_hypotheses*). Proved by a soundness and a completeness "
+     "invariant of the forward scan (Tr.fwdStep_inv, Tr.fwdStep_FC) and the transparency of the hour index (Tr.fwdIndex_spec). " + _M + "; the brute-force reference solver is still run on every answer.",
+     "Lean 4 theorems (soundness + completeness invariants of the forward scan, hour-index transparency) + differential correspondence + reference solver")
+_reg("C09", "PROOF (full, over the model, on the property's own domain - in fact without the 'uniform minimum waiting' restriction): Tr.C09_sound - every listed stop is usable with the reported time "
+     "(a chain of scheduled rides boards there at nodeTime + minimum waiting and reaches an offered stop in time); Tr.C09_complete - every stop with a boarding from which the place can still be "
+     "reached by the requested time within max_travel_time (inductive specification RReach) is listed; Tr.C09_latest - nodeTime is at least departure - minimum waiting of ANY such boarding at "
+     "that stop; totalTravelTime = requested - nodeTime <= max_travel_time, each stop once ascending, totalNodeCount. Hypotheses: well-formed data, positive hop times, non-negative egress walks, "
+     "router lists each stop once, request time >= 0 (satisfiable: Tr.nv_hypotheses*). Proved by a soundness and a completeness invariant of the reverse scan (Tr.revStep_inv, Tr.revStep_RC) and the "
+     "transparency of the reverse hour index (Tr.revIndex_spec). " + _M + "; the brute-force reference solver is still run on every answer.",
+     "Lean 4 theorems (soundness + completeness invariants of the reverse scan, hour-index transparency) + differential correspondence + reference solver")
 _reg("C10", "PROOF (partial): Tr.C10_alternatives - same success/failure and reason as without alternatives, routes[0] is the plain answer, pairwise distinct "
      "sorted line lists, at most 50 routes and totalRoutesCalculated >= their number; validity of each further route is Tr.C01_with. 'No better than "
      "routes[0]' needs the optimality theorems and is decided per answer by the oracle. " + _M + ".",
